@@ -776,8 +776,181 @@ func callBoundedGoroutine(gi *ssa.Go, parent *ssa.Function) (bool, string) {
 		if closed {
 			return true, "helper goroutine bounded by the call that started it: it only waits in one select, one case of which is a channel closed by a deferred close of the spawning function"
 		}
+		if len(made) == 1 {
+			if ok, why := onceFlagClose(gi, parent, made[0], isMine); ok {
+				return true, why
+			}
+		}
 	}
 	return false, ""
+}
+
+// onceFlagClose: the goroutine is started inside a loop, at most once, guarded by a loop variable G that is nil until the
+// start and holds the goroutine's stop channel ever after; every way out of the function after the loop closes (defers the
+// close of) G's final value when it is not nil. In detail:
+//
+//	(a) the go statement is reached only with G == nil;
+//	(b) on the ways from the go statement to the loop's back edge G's next value is the channel made for this goroutine;
+//	(c) no other way round the loop resets G (it keeps its value or receives that channel);
+//	(d) the loop cannot be left between the go statement and the back edge;
+//	(e) a deferred close of X outside the loop, where X is G as it was when the loop was left, is reached on every way to
+//	    a return on which X != nil.
+func onceFlagClose(gi *ssa.Go, parent *ssa.Function, mk ssa.Value, isMine func(ssa.Value) bool) (bool, string) {
+	var loop *Loop
+	for _, l := range loopsOf(parent) {
+		if l.Blocks[gi.Block()] && (loop == nil || len(l.Blocks) < len(loop.Blocks)) {
+			loop = l
+		}
+	}
+	if loop == nil {
+		return false, ""
+	}
+	mine := func(v ssa.Value) bool {
+		os := origins(v)
+		for _, o := range os {
+			if o.Val != mk {
+				return false
+			}
+		}
+		return len(os) > 0
+	}
+	for _, in := range loop.Header.Instrs {
+		g, ok := in.(*ssa.Phi)
+		if !ok {
+			continue
+		}
+		if _, isChan := g.Type().Underlying().(*types.Chan); !isChan {
+			continue
+		}
+		// entered with nil
+		okEntry := true
+		for i, e := range g.Edges {
+			if !loop.Blocks[loop.Header.Preds[i]] && !isNilConst(stripConv(e)) {
+				okEntry = false
+			}
+		}
+		if !okEntry {
+			continue
+		}
+		isG := func(v ssa.Value) bool { return trivialPhi(stripConv(v)) == ssa.Value(g) }
+		cs := newCondSpace(parent, recOf(eqAtom("unset", isG, isNil)), "unset")
+		// (a)
+		if imp, _ := cs.Implies(cs.Reach(gi), cs.Atom("unset")); !imp || !cs.Seen("unset") {
+			continue
+		}
+		// (b) + (c)
+		var keepsOrMine func(v ssa.Value, depth int) bool
+		keepsOrMine = func(v ssa.Value, depth int) bool {
+			v = stripConv(v)
+			if v == ssa.Value(g) || mine(v) {
+				return true
+			}
+			ph, isPhi := v.(*ssa.Phi)
+			if !isPhi || ph.Block() == loop.Header || depth > 6 {
+				return false
+			}
+			for _, e := range ph.Edges {
+				if !keepsOrMine(e, depth+1) {
+					return false
+				}
+			}
+			return true
+		}
+		okLoop := true
+		for i, e := range g.Edges {
+			if !loop.Blocks[loop.Header.Preds[i]] {
+				continue
+			}
+			if !keepsOrMine(e, 0) {
+				okLoop = false
+			}
+			for _, rv := range cs.ResolveUnder(e, cs.Reach(gi)) {
+				if !mine(rv) {
+					okLoop = false
+				}
+			}
+		}
+		if !okLoop {
+			continue
+		}
+		// (d)
+		escapes := false
+		for _, ex := range loop.exits() {
+			if reachableWithin(gi.Block(), ex[0], loop) && ex[0] != loop.Header {
+				escapes = true
+			}
+		}
+		if escapes || gi.Block() == loop.Header {
+			continue
+		}
+		// (e)
+		leavesAsG := func(v ssa.Value) bool { // X is G as the loop was left: a merge of G over the exits
+			var walk func(v ssa.Value, depth int) bool
+			walk = func(v ssa.Value, depth int) bool {
+				v = stripConv(v)
+				if v == ssa.Value(g) {
+					return true
+				}
+				ph, isPhi := v.(*ssa.Phi)
+				if !isPhi || loop.Blocks[ph.Block()] || depth > 4 {
+					return false
+				}
+				for _, e := range ph.Edges {
+					if !walk(e, depth+1) {
+						return false
+					}
+				}
+				return true
+			}
+			return walk(v, 0)
+		}
+		var found *ssa.Defer
+		eachInstr(parent, func(x ssa.Instruction) {
+			d, isD := x.(*ssa.Defer)
+			if !isD || calleeOf(&d.Call).Builtin != "close" || loop.Blocks[d.Block()] || !leavesAsG(d.Call.Args[0]) {
+				return
+			}
+			xv := trivialPhi(stripConv(d.Call.Args[0]))
+			xcs := newCondSpace(parent, recOf(eqAtom("xNil", func(v ssa.Value) bool { return trivialPhi(stripConv(v)) == xv }, isNil)), "xNil")
+			if !xcs.Seen("xNil") {
+				return
+			}
+			all := true
+			for _, r := range returnsOf(parent) {
+				if loop.Blocks[r.Block()] || !canReachFromLoop(loop, r.Block()) {
+					continue
+				}
+				if imp, _ := xcs.Implies(and(xcs.Reach(r), xcs.Not(xcs.Atom("xNil"))), xcs.Reach(d)); !imp || !mayPrecede(d, r) {
+					all = false
+				}
+			}
+			if all {
+				found = d
+			}
+		})
+		// returns inside the loop after the start are excluded by (d); returns inside the loop before it happen with G
+		// unchanged and are covered only if they cannot occur once G is set: require none
+		for _, r := range returnsOf(parent) {
+			if loop.Blocks[r.Block()] {
+				found = nil
+			}
+		}
+		if found != nil {
+			return true, "helper goroutine started at most once under a loop variable that is nil until then and holds the goroutine's stop channel afterwards; every return after the loop is preceded by a deferred close of that variable when it is not nil"
+		}
+	}
+	_ = isMine
+	return false, ""
+}
+
+// canReachFromLoop: b is reachable from some exit of the loop.
+func canReachFromLoop(l *Loop, b *ssa.BasicBlock) bool {
+	for _, ex := range l.exits() {
+		if ex[1] == b || canReach(ex[1], b, false) {
+			return true
+		}
+	}
+	return false
 }
 
 // registeredRightAfter: the defer follows the go statement in the same block with nothing in between that could return,
